@@ -59,4 +59,14 @@ def tpDt (seq : Nat) (chunk : List Nat) : List Nat := seq :: (chunk ++ List.repl
 def dtcBytes (spn fmi oc : Nat) : List Nat :=
   [spn % 256, spn / 256 % 256, (spn / 65536 % 8) * 32 + fmi % 32, oc % 128]
 
+/-- J1939-22 FD.TP.CM (12 data bytes): control in the low nibble and session number in the high nibble of byte 1, then
+    24-bit little-endian total size, 24-bit segment count / next segment, two control-specific bytes, 24-bit PGN -/
+def fdCm (ctl sess size seg b7 b8 pgn : Nat) : List Nat :=
+  [ctl % 16 + (sess % 16) * 16] ++ le24 size ++ le24 seg ++ [b7 % 256, b8 % 256] ++ le24 pgn
+/-- header of an FD.TP.DT frame: data-transfer format indicator and session number, 24-bit segment number -/
+def fdDtHeader (dtfi sess seg : Nat) : List Nat := [dtfi % 16 + (sess % 16) * 16] ++ le24 seg
+/-- PGN of FD.TP.CM (0x4D00) and FD.TP.DT (0x4E00) with the destination in PS -/
+def fdCmId (prio da sa : Nat) : Nat := canId prio (0x4D00 + da) sa
+def fdDtId (da sa : Nat) : Nat := canId 7 (0x4E00 + da) sa
+
 end J1939.Ref
